@@ -81,6 +81,10 @@ func ToCatalog(rows []any, ident string, identRight string, joinExpr sqlparser.E
 			}
 			// the length in front of each value keeps ("a-", "b") and ("a", "-b") apart
 			text := fmt.Sprintf("%v", reader)
+			if number, ok := reader.(float64); ok && number == 0 {
+				// -0 and 0 are one number for `=` and print differently
+				text = "0"
+			}
 			buffer.WriteString(fmt.Sprintf("%d:", len(text)))
 			buffer.WriteString(text)
 			buffer.WriteString("-")
